@@ -188,6 +188,12 @@ def _all_operators(ctx, m, fn, it):
                 if len(vals) == 1 and isinstance(vals[0], ast.Call) and isinstance(vals[0].func, ast.Name) and vals[0].func.id in ("list", "tuple") \
                         and len(vals[0].args) == 1 and isinstance(vals[0].args[0], ast.Name):
                     return is_varargs(("param", vals[0].args[0].id))
+                # branches = tuple(normalise(arg) for arg in args)
+                if len(vals) == 1 and isinstance(vals[0], ast.Call) and isinstance(vals[0].func, ast.Name) and vals[0].func.id in ("list", "tuple") \
+                        and len(vals[0].args) == 1 and isinstance(vals[0].args[0], (ast.GeneratorExp, ast.ListComp)) \
+                        and len(vals[0].args[0].generators) == 1 and not vals[0].args[0].generators[0].ifs:
+                    g = vals[0].args[0].generators[0]
+                    return isinstance(g.iter, ast.Name) and is_varargs(("param", g.iter.id))
                 return False
             f = m.enclosing_function(f)
     return False
@@ -248,6 +254,14 @@ def rule_tm4(ctx: Ctx):
                 r.ob(ok, lambda: mk_finding("TM-4", spec, "Next", cfg, p, "merge must forward each branch item unchanged; it does: %s" % summary(p), extra="merge"))
                 mux_sk.add(("forward",))
                 continue
+            # the join table is released before the tuple goes out: the subscriber may feed the next source item from inside that call,
+            # and the branches' values for it must land in a table that no longer holds this tuple's flags
+            first_emit = next((k for k, e in enumerate(p.trace) if e.k == "emit" and e.method == "on_next"), None)
+            late = [e for e in clears if first_emit is not None and p.trace.index(e) > first_emit]
+            r.ob(not late, lambda late=late: mk_finding(
+                "TM-4", spec, "Next", cfg, p, "the join table is cleared (%s) after the tuple was emitted: an item fed back synchronously by the subscriber is joined "
+                "with the stale values of the other branches, and the values the branches produce for it are wiped when the outer call returns" % late[0].brief(),
+                node=late[0].node, extra="release-before-emit"))
             # slot writes: the value table receives the item, the flag table True (names are discovered, not assumed)
             wq = [e for e in data_writes if e.value == EVITEM]
             wf = [e for e in data_writes if e.value == ("const", True)]
